@@ -67,7 +67,8 @@ JoinDef(shape, s, t, m, a) ==
       keep == SelectSeq([i \in 1..Len(t) |-> i], LAMBDA i : m # "inner" \/ hit(i))
       rowOf(i) == [k |-> t[i].k, t |-> t[i].t, x |-> IF hit(i) THEN AggDef(a, Matching(shape, s, KeyOf(shape, t, i))) ELSE Null]
       unmatched == IF m = "full-outer"
-                   THEN {[key |-> key, x |-> AggDef(a, Matching(shape, s, key))] : key \in SrcKeys(shape, s) \ TgtKeys(shape, t)}
+                   \* a row of its own, with the target's own fields null (it carries EVERY field the target declares)
+                   THEN {[key |-> key, t |-> Null, x |-> AggDef(a, Matching(shape, s, key))] : key \in SrcKeys(shape, s) \ TgtKeys(shape, t)}
                    ELSE {}
   IN [ordered |-> [n \in 1..Len(keep) |-> rowOf(keep[n])], extra |-> unmatched]
 \* deduplication mode (join_with_self): exactly one aggregated row per distinct key
@@ -129,7 +130,7 @@ TargetDone == /\ phase = "target" /\ pos > Len(tgt) /\ phase' = "done"
 Next == IndexRow \/ IndexDone \/ EmitTarget \/ TargetDone
 Spec == Init /\ [][Next]_vars
 
-Extra == IF mode = "full-outer" THEN {[key |-> db[i][1], x |-> Final(agg, db[i][2])] : i \in {j \in 1..Len(db) : db[j][1] \notin used}} ELSE {}
+Extra == IF mode = "full-outer" THEN {[key |-> db[i][1], t |-> Null, x |-> Final(agg, db[i][2])] : i \in {j \in 1..Len(db) : db[j][1] \notin used}} ELSE {}
 Dedup == {[key |-> db[i][1], x |-> Final(agg, db[i][2])] : i \in 1..Len(db)}
 
 \* C11 at the design level: the streaming design computes the declarative join
